@@ -44,6 +44,8 @@ pub fn run() {
                 let cmd = req.get("cmd").and_then(|c| c.as_str()).unwrap_or("").to_string();
                 match catch_unwind(AssertUnwindSafe(|| match cmd.as_str() {
                     "edits" => cmd_edits(&req),
+                    "c14_deltas" => crate::verif_c14::cmd_deltas(&req),
+                    "c14_codemap" => crate::verif_c14::cmd_codemap(&req),
                     "testrun" => crate::verif_c18::cmd_testrun(&req),
                     _ => json!({"bad_request": "unknown cmd"}),
                 })) {
